@@ -32,7 +32,7 @@ CHECKS["C07"] = dict(
 CHECKS["C10"] = dict(
   technique="symbolic execution of go/ssa with SMT (z3): every token followed by N arbitrary symbolic bytes through the real Channel.WritePacket; arbitrary packet headers and chunked streams through Packet.ReadFrom; panics, non-termination and allocation sizes are solver-decided obligations",
   text="Bounded symbolic model checking of the receive path for arbitrary server bytes: for each of the 30 registered tokens and an unregistered one, the token plus up to N arbitrary bytes (content and available length symbolic, EOM symbolic) is fed through Channel.WritePacket -> tryParsePackage -> LookupPackage -> ReadFrom -> field/format readers -> handleSpecialPackage; an arbitrary 8-byte header (incl. Length < 8) with an arbitrary chunked stream goes through Packet.ReadFrom; an ENVCHANGE with an arbitrary decimal packet size is followed by a send. Every index, slice, nil, make, type-assertion and division check of the executed code is an obligation (panic outcome must be infeasible), every loop must terminate inside its unwinding bound, and the sum of all make/append sizes must stay below 2 MiB + 16 x bytes received.",
-  note="Trusted: symgo executor, z3; deadlines expire after at most 3 polls (time model). Bounds: N = 3..18 bytes after the token (quick) / up to 24 (thorough), <=4 format fields, <=3 transport chunks. Outside: inputs that need more bytes to reach a crash, value-level decoding (GoValue) of row data (C04/C05), peak heap as measured by the runtime, stack depth. Known finding F-C10-bytes-prealloc (PacketQueue.Bytes allocates a wire-declared 32-bit length before checking availability) is reported as KNOWN-FINDING; any allocation violation at another call site is a new violation.",
+  note="Trusted: symgo executor, z3; deadlines expire after at most 3 polls (time model). Bounds: N = 3..14 bytes after the token (quick) / up to 24 (thorough), <=4 format fields, <=3 transport chunks. Outside: inputs that need more bytes to reach a crash, value-level decoding (GoValue) of row data (C04/C05), peak heap as measured by the runtime, stack depth. Known finding F-C10-bytes-prealloc (PacketQueue.Bytes allocates a wire-declared 32-bit length before checking availability) is reported as KNOWN-FINDING; any allocation violation at another call site is a new violation.",
   ref="DESIGN.md §4 C10")
 
 CHECKS["C03"] = dict(
